@@ -434,6 +434,22 @@ pub fn check(s: &'static dyn Proto, c: &Case, st: &mut Stats, _k: &KnownFindings
                             }
                         });
                         step("ClientLogin::start/finish", r)?;
+                        // the finish steps take the password again: a state started (or restored)
+                        // with an in-range password, finished with an over-limit one
+                        let r = call("ClientRegistration::finish(state from a short password, over-limit password)", || {
+                            let (req, cst) = s.client_reg_start(&mut spec.derive(50).rng(), &base).expect("HARNESS-BUG: reg start");
+                            let resp = s.server_reg_start(setup, &req, &cred).expect("HARNESS-BUG: server reg start");
+                            s.client_reg_finish(cst, &mut spec.derive(51).rng(), &pw, &resp, b_ids, None).is_err()
+                        });
+                        step("ClientRegistration::finish(other password)", r)?;
+                        let r = call("ClientLogin::finish(state from a short password, over-limit password)", || {
+                            let (req, cst) = s.client_login_start(&mut spec.derive(52).rng(), &base).expect("HARNESS-BUG: login start");
+                            let (resp, _) = s
+                                .server_login_start(&mut spec.derive(53).rng(), setup, Some(&record), &req, &cred, Some(&base), b_ids)
+                                .expect("HARNESS-BUG: server start");
+                            s.client_login_finish(cst, &pw, &resp, Some(&base), b_ids, None).is_err()
+                        });
+                        step("ClientLogin::finish(other password)", r)?;
                     }
                     P::IdU | P::IdS | P::Ctx => {
                         let (req, cst) = s.client_login_start(&mut spec.derive(34).rng(), &base).map_err(|e| Fail::new(format!("{e:?}")))?;
@@ -467,6 +483,20 @@ pub fn check(s: &'static dyn Proto, c: &Case, st: &mut Stats, _k: &KnownFindings
                 st.label(format!("in-range:{which:?}:{len}"));
             }
         }
+    }
+    // ---- (e) key-stretching instances with awkward parameters: an Argon2 instance whose configured
+    // output length differs from the suite's hash length must fail (or work) cleanly, never panic
+    {
+        let (req, cst) = s.client_reg_start(&mut spec.derive(60).rng(), b"pw").map_err(|e| Fail::new(format!("{e:?}")))?;
+        let resp = s.server_reg_start(setup, &req, b"cred").map_err(|e| Fail::new(format!("{e:?}")))?;
+        for out_len in [4u32, m.nh as u32 - 1, m.nh as u32, m.nh as u32 + 1, 2 * m.nh as u32] {
+            let k = KsfSpec::Argon2Out { m_kib: 8, t: 1, p: 1, out_len };
+            call(&format!("ClientRegistration::finish with Argon2 output_len={out_len} (hash length {})", m.nh), || {
+                let _ = s.client_reg_finish(s.clone_obj(&cst), &mut spec.derive(61).rng(), b"pw", &resp, Ids::default(), Some(&k));
+            })?;
+            st.eval(1);
+        }
+        st.label("ksf:argon2-output-length-grid");
     }
     st.nontrivial_bulk(hash_of(&(m.name, c)), nontrivial);
     st.sample(|| json!({"suite": m.name, "random_strings_per_decoder": c.n_random, "mutants_per_decoder": c.n_mutants,
